@@ -153,6 +153,11 @@ def _value_to_cst(value: Any) -> cst.BaseExpression:  # noqa: C901
         return cst.Name("None")
     if isinstance(value, bool):
         return cst.Name("True" if value else "False")
+    if tu.is_enum(type(value)):
+        # EnumClass.MEMBER; before int/str, which IntEnum/StrEnum members are, too
+        class_name = type(value).__name__
+        member_name = value.name
+        return cst.Attribute(value=cst.Name(class_name), attr=cst.Name(member_name))
     if isinstance(value, int):
         if value < 0:
             return cst.UnaryOperation(operator=cst.Minus(), expression=cst.Integer(str(-value)))
@@ -172,11 +177,6 @@ def _value_to_cst(value: Any) -> cst.BaseExpression:  # noqa: C901
                 cst.Arg(value=_make_float_literal(value.imag)),
             ],
         )
-    if tu.is_enum(type(value)):
-        # EnumClass.MEMBER
-        class_name = type(value).__name__
-        member_name = value.name
-        return cst.Attribute(value=cst.Name(class_name), attr=cst.Name(member_name))
     typ = type(value)
     if tu.is_list(typ):
         return cst.List(elements=[cst.Element(value=_value_to_cst(v)) for v in value])
